@@ -429,7 +429,13 @@ impl Order {
 
 /// the collection of size n in the requested order — the model
 fn expected(n: usize, order: Order) -> Vec<(u64, String)> {
-    let mut v: Vec<(u64, String)> = (0..n as u64).map(item).collect();
+    static MASTER: OnceLock<Vec<(u64, String)>> = OnceLock::new();
+    let master = MASTER.get_or_init(|| (0..=MAX_N as u64).map(item).collect());
+    let mut v: Vec<(u64, String)> = if n <= master.len() {
+        master[..n].to_vec()
+    } else {
+        (0..n as u64).map(item).collect()
+    };
     match order {
         Order::Basic | Order::SortsDefault | Order::NameAsc => {
             v.sort_by(|a, b| a.1.as_bytes().cmp(b.1.as_bytes()))
@@ -471,6 +477,7 @@ fn matching(n: usize, order: Order) -> usize {
     }
 }
 
+const MAX_N: usize = 25_000;
 const SERVER_MAX: u64 = 10_000;
 const SERVER_DEFAULT: u64 = 100;
 
@@ -591,7 +598,7 @@ pub fn scenarios(seed: u64, quick: bool) -> Vec<Scenario> {
         }
     }
     // random (N, limit) pairs: N mod limit and N vs limit classes at large
-    let extra = if quick { 3000 } else { 150_000 };
+    let extra = if quick { 3000 } else { 40_000 };
     for _ in 0..extra {
         let big = !quick && rng.chance(1, 3);
         let n = if big { rng.usize(25_001) } else { rng.usize(301) };
